@@ -167,6 +167,20 @@ def _check(case):
                         bad.append(f"MapSpec output {o} is neither a variable nor a coordinate")
                 elif o not in s1["vars"] and o not in s1["coords"]:
                     bad.append(f"output {o} (no MapSpec inputs) is missing from the dataset")
+                elif spec and o in s1["vars"]:
+                    # a MapSpec output whose axes are all supplied by the function ("... -> x[i]"): still a MapSpec output
+                    axes = list(dict(spec["outputs"])[o])
+                    dims, vals = s1["vars"][o]
+                    if dims != axes:
+                        bad.append(f"variable {o} (MapSpec '... -> {o}[{', '.join(axes)}]'): dims {dims} != MapSpec axes {axes}")
+                    elif o in want and progs.fz(vals) != progs.fz(want[o]):
+                        bad.append(f"variable {o}: values differ from the map result")
+                elif spec and o in s1["coords"]:
+                    # ... consumed downstream it may serve as the coordinate of its axis: then on exactly that axis
+                    axes = list(dict(spec["outputs"])[o])
+                    if s1["coords"][o][0] != axes:
+                        bad.append(f"MapSpec output {o} ('... -> {o}[{', '.join(axes)}]') is a coordinate on "
+                                   f"{s1['coords'][o][0]}, its MapSpec axes are {axes}")
                 elif o in s1["vars"] and not spec and o in want and not any(
                         n == o for g in prog["funcs"] if g.get("spec") for n, _ in g["spec"]["inputs"]):
                     # (an array indexed by a later MapSpec gets a generated MapSpec of its own and is not such an output)
